@@ -176,6 +176,19 @@ fn encrypt_chunks<T: Read, U: Write>(
     Ok(())
 }
 
+/// Verification hook: exposes the private chunk encryptor with a caller-chosen
+/// key, aad and chunk size. Compiled only with `--cfg kestrel_verif`.
+#[cfg(kestrel_verif)]
+pub fn verif_encrypt_chunks<T: Read, U: Write>(
+    plaintext: &mut T,
+    ciphertext: &mut U,
+    key: &[u8],
+    aad: &[u8],
+    chunk_size: u32,
+) -> Result<(), EncryptError> {
+    encrypt_chunks(plaintext, ciphertext, key, aad, chunk_size)
+}
+
 fn read_err(err: std::io::Error) -> EncryptError {
     EncryptError::IORead(err)
 }
